@@ -30,14 +30,17 @@ RULE = ("random sweeps with 1..40 settings (grids, case lists, cases x sub-grid)
 
 
 def gen_history(rng, tier):
-    for _ in range(50):
-        sw = R.Sweep(rng, with_cases=rng.random() < 0.4, max_args=3, max_vals=4,
+    # one history in five: sow_cases with two or more sub-combos (given in any argument order)
+    want_sub = rng.random() < 0.2
+    for _ in range(300):
+        sw = R.Sweep(rng, with_cases=True if want_sub else rng.random() < 0.4, max_args=5 if want_sub else 3,
+                     max_vals=3 if want_sub else 4,
                      kind=rng.choice([0, 0, 1, 2, 3, 4, 5, 6]), allow_consts=rng.random() < 0.3)
-        if sw.n_settings() <= 40:
+        if sw.n_settings() <= 40 and (not want_sub or len(sw.combo_args) >= 2):
             break
     n = sw.n_settings()
     shuffle = rng.choice([False, True, rng.randint(2, 999)])
-    via = "cases" if (sw.cases and rng.random() < 0.45) else "combos"
+    via = "cases" if (sw.cases and (want_sub or rng.random() < 0.45)) else "combos"
     sown = D.SownSweep(sw, shuffle, via)
     r = rng.random()
     if r < 0.4:
@@ -151,7 +154,7 @@ def run(tier, seed):
             desc = [D.describe_op(x) for x in ops]
             c.case(json.dumps(desc, sort_keys=True, default=str), nontrivial=B >= 2,
                    sample={"ops": desc, "final": obs[-1]} if sw.n_settings() <= 6 else None)
-            c.count("batches", min(B, 20)); c.count("via", sown.via); c.count("shuffle", type(sown.shuffle).__name__ + str(bool(sown.shuffle)))
+            c.count("batches", min(B, 20)); c.count("via", sown.via); c.count("sub_combos_of_sow_cases", len(sw.combo_args) if sown.via == "cases" else "-"); c.count("shuffle", type(sown.shuffle).__name__ + str(bool(sown.shuffle)))
             c.count("reload_steps", sum(1 for o in ops if o[0] == "reload"))
             c.count("request", "bs" if ops[0][2] else ("nb" if ops[0][3] else "none"))
             # ---- the property statement, directly
